@@ -583,6 +583,44 @@ theorem scan_guard_not_oob (f : List Nat → Option (List Nat)) (str : List Nat)
       | some out => simp
       | none => simp only; exact ih (n + 1)
 
+/-- A guarded search never looks behind `len(str)`: what lies between `len` and `cap` of the
+slice is irrelevant. -/
+theorem scan_guard_extra (f : List Nat → Option (List Nat)) (str extra : List Nat) :
+    ∀ (k n : Nat), scan f true (str ++ extra) str.length n k = scan f true str str.length n k := by
+  intro k
+  induction k with
+  | zero => intro n; simp [scan]
+  | succ k ih =>
+    intro n
+    unfold scan
+    by_cases hn : n > str.length
+    · simp [hn]
+    · have h1 : ¬ n > (str ++ extra).length := by simp; omega
+      simp only [hn, h1, Bool.true_and, decide_false, Bool.false_eq_true, if_false]
+      rw [List.take_append_of_le_length (by omega)]
+      cases f (str.take n) with
+      | some out => rfl
+      | none => simp only; exact ih (n + 1)
+
+/-- The guarded outer loop does not depend on the spare capacity of its argument. -/
+theorem convLoop_guard_extra (f : List Nat → Option (List Nat)) (L : Nat) (extra : List Nat) :
+    ∀ (fuel : Nat) (s : List Nat), convLoop f true L extra fuel s = convLoop f true L [] fuel s := by
+  intro fuel
+  induction fuel with
+  | zero => intro s; simp [convLoop]
+  | succ fuel ih =>
+    intro s
+    unfold convLoop
+    by_cases he : s.isEmpty
+    · simp [he]
+    · simp only [he, Bool.false_eq_true, if_false, List.append_nil]
+      rw [scan_guard_extra f s extra L 1]
+      cases hsc : scan f true s s.length 1 L with
+      | found n out => simp only; rw [ih (s.drop n)]
+      | short n => rfl
+      | exhausted => rfl
+      | oob => rfl
+
 /-- A guarded loop never panics. -/
 theorem convLoop_guard_no_crash (f : List Nat → Option (List Nat)) (L : Nat) :
     ∀ (fuel : Nat) (s : List Nat), convLoop f true L [] fuel s ≠ .crash := by
@@ -765,6 +803,38 @@ theorem convLoop_crash_iff (f : List Nat → Option (List Nat)) (L : Nat) :
               exact ihk (n + 1) (by omega) (by omega) (by omega)
         rw [hoob L 1 (by omega) (Nat.le_refl _) (by omega)]
       rw [hcr]; rfl
+
+/-- Where the unguarded loop panics, the guarded loop reports failure. -/
+theorem convLoop_tail_fail (f : List Nat → Option (List Nat)) (L : Nat) (s : List Nat)
+    (h : TailAt f L s) : convLoop f true L [] (s.length + 1) s = .fail := by
+  obtain ⟨p, t, hs, ⟨b, hb⟩, ht1, ht2, ht3⟩ := h
+  obtain ⟨us, hus, hp, _⟩ := convLoop_ok_inv f true L [] _ _ _ hb
+  subst hs
+  rw [hp]
+  rw [convLoop_units f true L [] us hus t _ (Nat.lt_succ_self _)]
+  have hfl : convLoop f true L [] (t.length + 1) t = .fail := by
+    unfold convLoop
+    have he : t.isEmpty = false := by
+      cases t with
+      | nil => exact absurd rfl ht1
+      | cons a r => rfl
+    simp only [he, Bool.false_eq_true, if_false, List.append_nil]
+    have hshort : ∀ (k n : Nat), n + k = L + 1 → 1 ≤ n → n ≤ t.length + 1 →
+        scan f true t t.length n k = .short (t.length + 1) := by
+      intro k
+      induction k with
+      | zero => intro n h1 h2 h3; omega
+      | succ k ihk =>
+        intro n h1 h2 h3
+        unfold scan
+        by_cases hn : n > t.length
+        · have : n = t.length + 1 := by omega
+          simp [this]
+        · simp only [hn, Bool.true_and, decide_false, Bool.false_eq_true, if_false]
+          rw [ht3 n h2 (by omega)]
+          exact ihk (n + 1) (by omega) (by omega) (by omega)
+    rw [hshort L 1 (by omega) (Nat.le_refl _) (by omega)]
+  rw [hfl]; rfl
 
 /-- Two unit functions that agree on every substring give the same loop result. -/
 theorem scan_congr (f g : List Nat → Option (List Nat)) (guard : Bool) (buf : List Nat) (len : Nat)
